@@ -141,10 +141,10 @@ Qed.
 
 End Core.
 
-Lemma C07_holds_for_runs : forall cfg ls s g tp, runs cfg ls s -> s_late s = false ->
+Lemma C07_holds_for_runs : forall cfg ls s g tp, runs cfg ls s ->
   C07_holds_for cfg (s_calls s) (s_journal s) g tp = true.
 Proof.
-  intros cfg ls s g tp Hr HL. destruct (Inv12_runs _ _ _ Hr) as [J I].
+  intros cfg ls s g tp Hr. destruct (Inv12_runs _ _ _ Hr) as [J I].
   unfold C07_holds_for.
   set (sub := filter (fun m => tp_eqb (tp_of cfg m) tp) (submitted (s_calls s) g)).
   set (p := fun a => a_applied a && tp_eqb (a_tp a) tp).
